@@ -257,8 +257,18 @@ impl IntoSqlBuilder for Member {
                     if let Some(cast_type) = sql_type {
                         // This is a type casting operation
                         if args.len() == 1 {
+                            // `::` binds tighter than every operator and than
+                            // `->`: an operand that is not self-delimiting is
+                            // parenthesised so that the cast applies to all of it
+                            let value = args.remove(0);
+                            let value: Box<dyn SqlBuilder> =
+                                if cast_operand_needs_parens(call.node().exprs[0].node()) {
+                                    Box::new(ParensBuilder { inner: value })
+                                } else {
+                                    value
+                                };
                             return Ok(Box::new(CastBuilder {
-                                value: args.remove(0),
+                                value,
                                 cast_type: StaticSqlBuilder::boxed(cast_type),
                             }));
                         } else if args.is_empty() {
@@ -316,6 +326,45 @@ impl IntoSqlBuilder for Member {
         return Ok(builder);
 
         // Handle as member access chain - check if this is JSON member access
+    }
+}
+
+/// True when the SQL text of `expr` is not a single postfix operand: a
+/// conditional, a binary operation at any level, or a member chain that
+/// contains a field access (emitted as `(obj)->>'field'`).
+fn cast_operand_needs_parens(expr: &Expr) -> bool {
+    let or = match expr {
+        Expr::Ternary { .. } | Expr::Match { .. } => return true,
+        Expr::Unary(or) => or.node(),
+    };
+    let and = match or {
+        ConditionalOr::Binary { .. } => return true,
+        ConditionalOr::Unary(and) => and.node(),
+    };
+    let rel = match and {
+        ConditionalAnd::Binary { .. } => return true,
+        ConditionalAnd::Unary(rel) => rel.node(),
+    };
+    let add = match rel {
+        Relation::Binary { .. } => return true,
+        Relation::Unary(add) => add.node(),
+    };
+    let mul = match add {
+        Addition::Binary { .. } => return true,
+        Addition::Unary(mul) => mul.node(),
+    };
+    let unary = match mul {
+        Multiplication::Binary { .. } => return true,
+        Multiplication::Unary(unary) => unary.node(),
+    };
+    match unary {
+        Unary::Member(member) => member
+            .node()
+            .member
+            .iter()
+            .any(|m| matches!(m.node(), MemberPrime::MemberAccess { .. })),
+        // emitted inside parentheses already
+        Unary::NotMember { .. } | Unary::NegMember { .. } => false,
     }
 }
 
